@@ -111,6 +111,54 @@ Definition do_class (c desired : nat) (st : list slot * list nat * bool) : list 
   let under' := if under then true else safe_count c desired (slots a2) 0 <? desired in
   (slots a2, protect_wanted_devs a2, under').
 
+(* ---- proposed repair (design study): protect the class's member replicas first, counted per
+   physical device; count `safe` per device; replicas on protected or wanted devices are unsafe ---- *)
+Definition pdev (m : mnt) : nat := if dev m =? 0 then 1000 + mid m else dev m.
+
+(* protection pass over the sorted slots: returns (unsafe mtimes, protected devices) *)
+Fixpoint protect (c desired : nat) (l : list slot) (prot : nat) (uns pd : list nat) : list nat * list nat :=
+  match l with
+  | [] => (uns, pd)
+  | s :: r =>
+    match srepl s with
+    | Some mt =>
+      if inclass c (smnt s) && (prot <? desired) && negb (mem (pdev (smnt s)) pd)
+      then protect c desired r (prot + mrepl (smnt s)) (add mt uns) (pdev (smnt s) :: pd)
+      else protect c desired r prot uns pd
+    | None => protect c desired r prot uns pd
+    end
+  end.
+
+Fixpoint safe_dev (c : nat) (l : list slot) (seen : list nat) : nat :=
+  match l with
+  | [] => 0
+  | s :: r =>
+    if has s && inclass c (smnt s) && negb (mem (pdev (smnt s)) seen)
+    then mrepl (smnt s) + safe_dev c r (pdev (smnt s) :: seen)
+    else safe_dev c r seen
+  end.
+
+Definition protect_devs (a : acc) (pd : list nat) (uns : list nat) : list nat :=
+  fold_left (fun u s => match srepl s with
+                        | Some mt => if mem (pdev (smnt s)) pd ||
+                                        ((negb (dev (smnt s) =? 0)) && mem (dev (smnt s)) (wantDev a))
+                                     then add mt u else u
+                        | None => u end) (slots a) uns.
+
+Definition do_class_fixed (c desired : nat) (st : list slot * list nat * bool) : list slot * list nat * bool :=
+  let '(sl, uns, under) := st in
+  if desired =? 0 then st else
+  let sorted := isort c sl in
+  let '(uns1, pd) := protect c desired sorted 0 uns [] in
+  let a0 := {| slots := sorted; wantSrv := []; wantMnt := []; wantDev := []; protMnt := [];
+               replWant := 0; replProt := desired (* protection already done: disable it in try_slot *);
+               unsafe := uns1 |} in
+  let idxs := seq 0 (length sorted) in
+  let '(a1, d1) := pass true desired idxs a0 false in
+  let '(a2, _) := pass false desired idxs a1 d1 in
+  let under' := if under then true else safe_dev c (slots a2) [] <? desired in
+  (slots a2, protect_devs a2 pd (unsafe a2), under').
+
 Inductive change := Trash (m : nat) (mt : nat) | Pull (m : nat) (from : nat).
 
 Definition balance_block (mounts : list mnt) (replicas : list (nat * nat)) (classes : list (nat * nat))
@@ -120,6 +168,28 @@ Definition balance_block (mounts : list mnt) (replicas : list (nat * nat)) (clas
                            {| smnt := m; srepl := r;
                               swant := match r with Some _ => mro m | None => false end |}) mounts in
   let '(sl, uns, under) := fold_left (fun st cd => do_class (fst cd) (snd cd) st) classes (sl0, [], false) in
+  let sl := map (fun s => match srepl s with
+                          | Some mt => if under || mem mt uns
+                                       then {| smnt := smnt s; srepl := srepl s; swant := true |} else s
+                          | None => s end) sl in
+  let norepl := match replicas with [] => true | _ => false end in
+  let from := match replicas with (m0, _) :: _ =>
+                 match find (fun m => mid m =? m0) mounts with Some m => msrv m | None => 0 end
+               | [] => 0 end in
+  let changes := flat_map (fun s =>
+      match srepl s with
+      | Some mt => if negb (swant s) && (mt <? minMtime) then [Trash (mid (smnt s)) mt] else []
+      | None => if swant s && negb norepl && negb (mro (smnt s)) then [Pull (mid (smnt s)) from] else []
+      end) sl in
+  let lost := existsb (fun s => negb (has s) && swant s && norepl) sl in
+  (changes, lost).
+Definition balance_block_fixed (mounts : list mnt) (replicas : list (nat * nat)) (classes : list (nat * nat))
+  : list change * bool :=
+  let find_repl m := fold_left (fun acc r => if fst r =? mid m then Some (snd r) else acc) replicas None in
+  let sl0 := map (fun m => let r := find_repl m in
+                           {| smnt := m; srepl := r;
+                              swant := match r with Some _ => mro m | None => false end |}) mounts in
+  let '(sl, uns, under) := fold_left (fun st cd => do_class_fixed (fst cd) (snd cd) st) classes (sl0, [], false) in
   let sl := map (fun s => match srepl s with
                           | Some mt => if under || mem mt uns
                                        then {| smnt := smnt s; srepl := srepl s; swant := true |} else s
